@@ -292,6 +292,20 @@ theorem ref_getitem (s : St) (i : Nat) (k : Name) (hi : Inv s) : Ref s (.getitem
       · simp only [step, specStep, abs_get, ht, Option.map_some, e, absTab_map, dabs, hl]; exact (ret_abs s _).2
       · simp only [step, ht, e]; exact ret_inv s _ hi
 
+theorem ref_getd (s : St) (i : Nat) (k : Name) (d : Nat) (hi : Inv s) : Ref s (.getd i k d) := by
+  cases ht : s.tabs[i]? with
+  | none => constructor <;> simp [step, specStep, ht, hi]
+  | some t =>
+    have e := lookup_nonrec k ht
+    cases hl : alookup (fold k) t.ents with
+    | none => rw [hl] at e; constructor <;> simp [step, specStep, ht, e, hl, dabs, hi]
+    | some v =>
+      rw [hl] at e
+      constructor
+      · simp only [step, specStep, abs_get, ht, Option.map_some, e, absTab_map, dabs, hl]; exact (ret_abs s _).1
+      · simp only [step, specStep, abs_get, ht, Option.map_some, e, absTab_map, dabs, hl]; exact (ret_abs s _).2
+      · simp only [step, ht, e]; exact ret_inv s _ hi
+
 theorem ref_lookup (s : St) (i : Nat) (k : Name) (r : Bool) (hi : Inv s) : Ref s (.lookup i k r) := by
   cases ht : s.tabs[i]? with
   | none => constructor <;> simp [step, specStep, ht, hi]
@@ -338,6 +352,23 @@ theorem ref_pop (s : St) (i : Nat) (k : Name) (hi : Inv s) : Ref s (.pop i k) :=
       · simp only [step, ht, hl]; exact ret_inv _ _ (inv_setEnts hi ht (entsOk_aerase _ hm.1))
 
 theorem ref_popd (s : St) (i : Nat) (k : Name) (hi : Inv s) : Ref s (.popd i k) := by
+  cases ht : s.tabs[i]? with
+  | none => constructor <;> simp [step, specStep, ht, hi]
+  | some t =>
+    have hm := hi.1 t (List.mem_of_getElem? ht)
+    cases hl : alookup (fold k) t.ents with
+    | none => constructor <;> simp [step, specStep, ht, hl, dabs, hi]
+    | some v =>
+      have e3 : abs (setEnts s i t (aerase (fold k) t.ents)) = aSetMap (abs s) i (absTab t) ((absTab t).map.del (fold k)) := by
+        rw [abs_setEnts, dabs_aerase]; rfl
+      constructor
+      · simp only [step, specStep, abs_get, ht, Option.map_some, absTab_map, dabs, hl]
+        rw [← absTab_map, ← e3]; exact (ret_abs _ _).1
+      · simp only [step, specStep, abs_get, ht, Option.map_some, absTab_map, dabs, hl]
+        rw [← absTab_map, ← e3]; exact (ret_abs _ _).2
+      · simp only [step, ht, hl]; exact ret_inv _ _ (inv_setEnts hi ht (entsOk_aerase _ hm.1))
+
+theorem ref_popdv (s : St) (i : Nat) (k : Name) (d : Nat) (hi : Inv s) : Ref s (.popdv i k d) := by
   cases ht : s.tabs[i]? with
   | none => constructor <;> simp [step, specStep, ht, hi]
   | some t =>
